@@ -1,10 +1,10 @@
 package gen
 
 import (
-	"unicode/utf8"
 	"fmt"
 	"math/rand"
 	"strings"
+	"unicode/utf8"
 )
 
 // Structure-aware mutation of pattern texts (C10). The tokens are what the
